@@ -114,3 +114,75 @@ def guard_conditions(F, site):
 def path_calls(path, qre):
     rx = re.compile(qre) if isinstance(qre, str) else qre
     return [e for e in path.events if e.kind in ("call", "ctor") and e.q and rx.search(e.q)]
+
+
+def parent_map(F):
+    """id(node) -> parent node, over the fully linked expression forest of F"""
+    pm = F._cache.get("parents")
+    if pm is not None:
+        return pm
+    pm = {}
+
+    def rec(n):
+        for c in F.children(n):
+            cd = F.deref(c)
+            if isinstance(cd, dict) and id(cd) not in pm:
+                pm[id(cd)] = n
+                rec(cd)
+    for _, _, e in F.all_elements():
+        rec(e)
+    F._cache["parents"] = pm
+    return pm
+
+
+def widening_shifts(F):
+    """E7: shifts 'L << n' evaluated in a type narrower than the integer type
+    their value is implicitly converted to (directly or through same-width
+    arithmetic), with a non-constant amount or a constant amount >= width-1.
+    returns list of (shift node, narrow width, wide width, cast node)"""
+    pm = parent_map(F)
+    out = []
+    for _, _, e in F.all_elements():
+        if e.get("k") != "bin" or e.get("op") != "<<" or not e.get("iw"):
+            continue
+        L = e["iw"]
+        amt = F.deref(e["rhs"])
+        c = None
+        x = amt
+        for _ in range(6):
+            if "cv" in x:
+                c = x["cv"]
+                break
+            if x.get("k") in ("cast", "w"):
+                x = F.deref(x["sub"])
+            else:
+                break
+        lhs_const = None
+        x = F.deref(e["lhs"])
+        for _ in range(6):
+            if "cv" in x:
+                lhs_const = x["cv"]
+                break
+            if x.get("k") in ("cast", "w"):
+                x = F.deref(x["sub"])
+            else:
+                break
+        if c is not None and c < L - 1:
+            continue
+        # climb through same-width arithmetic
+        cur = e
+        while True:
+            p = pm.get(id(cur))
+            if p is None:
+                break
+            k = p.get("k")
+            if k == "w":
+                cur = p
+                continue
+            if k in ("bin", "un") and p.get("iw") == L and p.get("op") in ("-", "+", "~", "&", "|", "^"):
+                cur = p
+                continue
+            if k == "cast" and p.get("impl") and not p.get("pex") and p.get("ck") == "IntegralCast" and p.get("iw", 0) > L:
+                out.append((e, L, p["iw"], p, lhs_const, c))
+            break
+    return out
